@@ -316,6 +316,7 @@ package stream
 // makes a concatenation of fields - a series key - decode back to the same values, so two different value lists never share a key.
 //@ ghost var fieldValue []byte
 //@ func unmarshalVarArray#inverse
+//@   timeout 30
 //@   mode int
 //@   uses escLenMono escLenBounds
 //@   opt split-returns
